@@ -167,12 +167,12 @@ Lemma gen_extract_pre_eq nk nv size okey ovalue : 0 <= size < B62 ->
   res_eq (gen_extract_pre cmp nk nv size okey ovalue) (ref_extract_pre nk nv size okey ovalue).
 Proof. intros. unfold gen_extract_pre, ref_extract_pre. slice_decide Hc. Qed.
 
-Lemma gen_extract_step_eq nk nv i size last : 0 <= i < B62 -> 0 <= size < B62 -> 0 <= last < B62 ->
-  res_eq (gen_extract_step cmp nk nv i size last) (ref_extract_step kf nk nv i size last).
+Lemma gen_extract_step_eq nk nv i last size : 0 <= i < B62 -> 0 <= size < B62 -> 0 <= last < B62 ->
+  res_eq (gen_extract_step cmp nk nv i last size) (ref_extract_step kf nk nv i last size).
 Proof. intros. unfold gen_extract_step, ref_extract_step. slice_decide Hc. Qed.
 
-Lemma gen_extract_post_eq nk nv i size okey ovalue last :
-  res_eq (gen_extract_post cmp nk nv i size okey ovalue last) (ref_extract_post nk nv i size okey ovalue last).
+Lemma gen_extract_post_eq nk nv i last size okey ovalue :
+  res_eq (gen_extract_post cmp nk nv i last size okey ovalue) (ref_extract_post nk nv i last size okey ovalue).
 Proof. intros. unfold gen_extract_post, ref_extract_post. slice_decide Hc. Qed.
 
 Lemma gen_remove_pre_eq nk nv node size : - B62 < node < B62 -> 0 <= size < B62 ->
@@ -183,8 +183,8 @@ Lemma gen_remove_step_eq nk nv idx last size : 0 <= idx < B62 -> 0 <= size < B62
   res_eq (gen_remove_step cmp nk nv idx last size) (ref_remove_step kf nk nv idx last size).
 Proof. intros. unfold gen_remove_step, ref_remove_step. slice_decide Hc. Qed.
 
-Lemma gen_remove_post_eq nk nv idx size last :
-  res_eq (gen_remove_post cmp nk nv idx size last) (ref_remove_post nk nv idx size last).
+Lemma gen_remove_post_eq nk nv idx last size :
+  res_eq (gen_remove_post cmp nk nv idx last size) (ref_remove_post nk nv idx last size).
 Proof. intros. unfold gen_remove_post, ref_remove_post. slice_decide Hc. Qed.
 
 Lemma gen_find_pre_eq nk nv : res_eq (gen_find_pre cmp nk nv) (ref_find_pre nk nv).
